@@ -14,7 +14,7 @@ def run(ctx, prop, gens, whats, nbeh, depth=80):
     behs = []
     for cfg in gens:
         behs += vlib.gen_behaviours(ctx, "GenHelpers", cfg, num=nbeh // len(gens), depth=depth * 3,
-                                    env={"GEN_DEPTH": depth, "GEN_ALT": 1 if ("race" in cfg or "idem" in cfg) else 0}, name="gen-" + cfg)[:nbeh // len(gens)]
+                                    env={"GEN_DEPTH": depth, "GEN_ALT": 1 if ("race" in cfg or "idem" in cfg or "same" in cfg) else 0}, name="gen-" + cfg)[:nbeh // len(gens)]
     # distinct behaviours only
     seen, uniq = set(), []
     for b in behs:
